@@ -226,15 +226,19 @@ def run_hyp(desc):
                F.RAWCHARS]
     gl_bits = fn_bits + [G.GLOBSTAR, G.GLOBSTARLONG, G.MATCHBASE, G.NODIR, G.NODOTDIR, G.GLOBTILDE, G.FOLLOW]
 
+    RAW = ['!test', '!a', '-a', '!(a)', '(a)', '-(a)', '!', '-', '!*', '-*', '!!a', 'a|!b', '{!a,b}', '\\!a', '!.a', '-.a']
+    raw = st.sampled_from(RAW)
+
     @seed(desc['seed'])
     @util.hyp_settings(desc['n'], shrink=False)
-    @given(st.lists(seq, min_size=1, max_size=3), st.one_of(st.none(), st.lists(seq, min_size=1, max_size=2)), st.booleans(),
-           st.lists(st.sampled_from(gl_bits), max_size=5, unique=True), st.booleans(), st.data())
-    def test(incs, excs, pathmode, bits, ext, data):
+    @given(st.lists(seq, min_size=1, max_size=3), st.one_of(st.none(), st.lists(st.one_of(seq, seq, raw), min_size=1, max_size=2)), st.booleans(),
+           st.lists(st.sampled_from(gl_bits), max_size=5, unique=True), st.booleans(), st.data(), st.one_of(st.none(), raw))
+    def test(incs, excs, pathmode, bits, ext, data, raw_inc):
         incs = [s for s in incs if s]
         if not incs:
             return
-        excs = [s for s in excs if s] if excs is not None else None
+        raw_excs = [e for e in (excs or []) if isinstance(e, str)]
+        excs = [s for s in excs if s and not isinstance(s, str)] if excs is not None else None
         fl = 0
         for b in bits:
             if pathmode or b in fn_bits:
@@ -242,8 +246,9 @@ def run_hyp(desc):
         if ext:
             fl |= F.EXTMATCH
         render = (lambda s: A.render(s)) if ext else (lambda s: A.render_plain(A.flatten_ext(s)))
-        pats = [render(s) for s in incs]
-        excl = [render(s) for s in excs] if excs else None
+        pats = [render(s) for s in incs] + ([raw_inc] if raw_inc else [])
+        excl = ([render(s) for s in excs] if excs else []) + raw_excs
+        excl = excl or None
         draw_int = lambda lo, hi: data.draw(st.integers(lo, hi))
         alpha, _c = N.representatives(incs + (excs or []), icase=bool(fl & F.IGNORECASE), extra='.', cap=3)
         names = set(N.all_names(alpha + ('/' if pathmode else ''), 3))
@@ -254,6 +259,7 @@ def run_hyp(desc):
                 if pathmode:
                     names.add('x/' + g)
                     names.add(g + '/')
+        names |= {'!test', '!a', '-a', '(a)', 'test', '!', '-', '.a', '!.a', 'b'}
         names.discard('')
         plain_single = len(pats) == 1 and excl is None and not (fl & (F.SPLIT | F.BRACE | F.NEGATE | F.RAWCHARS | G.GLOBTILDE))
         asts = None
